@@ -249,7 +249,10 @@ class SimRaw(io.RawIOBase):
         if f is not None:
             k = f['kind']
             if k == 'eio' and fs.raw_writes == f['at'] and f.get('partial') \
-                    and n > 1:
+                    and n > 1 and f.get('errno') != errno.EINTR:
+                # (EINTR means "nothing was transferred": a write that moved
+                # data reports a short count instead, and the buffered layer
+                # retries EINTR by design)
                 # part of the data reaches the disk, then the error (once)
                 half = n // 2
                 end = self.pos + half
